@@ -240,6 +240,7 @@ def replay(res, ctx, path):
     def judge(r):
         c = corecheck._Collect()
         conservation(r, c, collections.Counter())
+        residual_bound_pass(c, ctx, [r], {"st": collections.Counter(), "diffs": []})
         stat, probs = renderoracle.check_run(r, groups=("over", "acb")) if r["hc"].get("render") else ("skip", [])
         return c.msgs + ([m for _, m in probs] if stat == "ok" else [])
     return corecheck.replay(res, ctx, path, judge=judge)
